@@ -1,4 +1,4 @@
-import HexVerif.Lemmas.XcmpFront
+import HexVerif.Lemmas.XcmpFuel
 /-!
   Property C09: xcmp accepts or cleanly rejects every input - the stages modelled so far.
 
@@ -13,11 +13,12 @@ import HexVerif.Lemmas.XcmpFront
   * `C09_no_fault`: the front end never reaches the one partial operation it contains by name (an
     assignment statement whose target is neither a variable nor a subscript, which the C++ only
     guards by a compiled-out `assert(0)` in StmtCodeGen) - whatever the fuel.
-  * `C09_partial`: the front end either delivers a program, or a diagnostic (and then nothing else:
-    the diagnostic arm carries no tree), or hits the recursion bound of the MODEL (`fuel`).
+  * `C09_no_fuel`: the recursion bound of the parser MODEL (`fuelFor src` = 8 units per lexical item
+    + 8) always suffices - every call cycle of the grammar consumes a token, and consuming buys 8 units.
+  * `C09_partial`: hence the front end either delivers a program or a diagnostic (and then nothing
+    else: the diagnostic arm carries no tree) - for every byte string, with no third outcome.
 
-  NOT proved (so the level claimed is partial): that `fuelFor src` always suffices (the check
-  reports any `fuel` result of the model as a broken tie; none has occurred), and everything after the
+  NOT proved (so the level claimed is partial): everything after the
   parser - symbol table, constant propagation, code generation, lowering, peephole, assembly - where
   the remaining partial operations of the C++ live (`optional::value`, null after `dynamic_cast`,
   label-map lookups, shifts, signed arithmetic).  Those stages are exercised by the sanitizer-
@@ -38,15 +39,19 @@ theorem C09_no_fault (src : List Byte) (fuel : Nat) (what : String) :
     parseProgram src fuel ≠ .error (.fault what) :=
   parseProgram_no_fault src fuel what
 
-/-- The front end accepts or cleanly rejects every byte string (up to the model's recursion bound). -/
+/-- The recursion bound of the parser model always suffices. -/
+theorem C09_no_fuel (src : List Byte) : parse src ≠ .error .fuel :=
+  parseProgram_no_fuel src (fuelFor src) (Nat.le_refl _)
+
+/-- The front end accepts or cleanly rejects every byte string: a program or a diagnostic, nothing else. -/
 theorem C09_partial (src : List Byte) :
-    (∃ P, parse src = .ok P) ∨ (∃ d, parse src = .error (.diag d)) ∨ parse src = .error .fuel := by
+    (∃ P, parse src = .ok P) ∨ (∃ d, parse src = .error (.diag d)) := by
   cases h : parse src with
   | ok P => exact Or.inl ⟨P, rfl⟩
   | error e =>
     cases e with
-    | diag d => exact Or.inr (Or.inl ⟨d, rfl⟩)
-    | fuel => exact Or.inr (Or.inr rfl)
+    | diag d => exact Or.inr ⟨d, rfl⟩
+    | fuel => exact absurd h (C09_no_fuel src)
     | fault w => exact absurd h (C09_no_fault src _ w)
 
 /-! Non-vacuity: an accepted program, a syntactic and a lexical diagnostic with their locations, the
